@@ -12,3 +12,165 @@ package functions
 //@   requires cachetag(regexpCache) == typeidptr(regexp.Regexp)
 //@ func FunctionMap["~*"][0].Function
 //@   requires cachetag(regexpCache) == typeidptr(regexp.Regexp)
+
+// ---- result shapes ----
+//@ spec isInt(v Value, x int) bool = v.TypeID == 1 && v.Int == x
+//@ spec isFloat(v Value, f float64) bool = v.TypeID == 2 && same(v.Float, f)
+//@ spec isBool(v Value, b bool) bool = v.TypeID == 3 && v.Boolean == b
+//@ spec isStr(v Value, s string) bool = v.TypeID == 4 && v.Str == s
+//@ spec isTimeNs(v Value, ns int) bool = v.TypeID == 5 && v.Time.ns == ns
+//@ spec isDur(v Value, d int) bool = v.TypeID == 6 && v.Duration == d
+
+// ---- C11: comparisons and NULL tests. Comparisons are the sign tests of Compare; =, != are SQL equality; they
+// return a Boolean, never NULL (strictness, i.e. NULL for a NULL argument, is FunctionCall.Evaluate's contract) ----
+//@ func FunctionMap["<"][0].Function
+//@   ensures cmp: result1 == nil && isBool(result0, cmp(values[0], values[1]) < 0)
+//@ func FunctionMap["<="][0].Function
+//@   ensures cmp: result1 == nil && isBool(result0, cmp(values[0], values[1]) <= 0)
+//@ func FunctionMap[">="][0].Function
+//@   ensures cmp: result1 == nil && isBool(result0, cmp(values[0], values[1]) >= 0)
+//@ func FunctionMap[">"][0].Function
+//@   ensures cmp: result1 == nil && isBool(result0, cmp(values[0], values[1]) > 0)
+//@ func FunctionMap["="][0].Function
+//@   ensures eq: result1 == nil && isBool(result0, cmp(values[0], values[1]) == 0 && !(values[0].TypeID == 0 && values[1].TypeID == 0))
+//@ func FunctionMap["!="][0].Function
+//@   ensures ne: result1 == nil && isBool(result0, !(cmp(values[0], values[1]) == 0 && !(values[0].TypeID == 0 && values[1].TypeID == 0)))
+//@ func FunctionMap["is null"][0].Function
+//@   ensures isnull: result1 == nil && isBool(result0, values[0].TypeID == 0)
+//@ func FunctionMap["is not null"][0].Function
+//@   ensures notnull: result1 == nil && isBool(result0, values[0].TypeID != 0)
+//@ func FunctionMap["not"][0].Function
+//@   ensures not: result1 == nil && isBool(result0, !values[0].Boolean)
+
+// ---- C13: arithmetic is Go's operator on the declared argument types (Int and Duration wrap in 64 bits, Float is
+// IEEE-754 double), time arithmetic is on the instant ----
+//@ func FunctionMap["+"][0].Function
+//@   ensures add: result1 == nil && isInt(result0, wrap64(values[0].Int + values[1].Int))
+//@ func FunctionMap["+"][1].Function
+//@   ensures add: result1 == nil && isFloat(result0, values[0].Float + values[1].Float)
+//@ func FunctionMap["+"][2].Function
+//@   ensures add: result1 == nil && isDur(result0, wrap64(values[0].Duration + values[1].Duration))
+//@ func FunctionMap["+"][3].Function
+//@   ensures add: result1 == nil && isTimeNs(result0, values[0].Time.ns + values[1].Duration)
+//@ func FunctionMap["+"][4].Function
+//@   ensures add: result1 == nil && isTimeNs(result0, values[1].Time.ns + values[0].Duration)
+//@ func FunctionMap["+"][5].Function
+//@   ensures concat: result1 == nil && isStr(result0, values[0].Str + values[1].Str)
+//@ func FunctionMap["-"][0].Function
+//@   ensures sub: result1 == nil && isInt(result0, wrap64(values[0].Int - values[1].Int))
+//@ func FunctionMap["-"][1].Function
+//@   ensures neg: result1 == nil && isInt(result0, wrap64(0 - values[0].Int))
+//@ func FunctionMap["-"][2].Function
+//@   ensures sub: result1 == nil && isFloat(result0, values[0].Float - values[1].Float)
+//@ func FunctionMap["-"][3].Function
+//@   ensures neg: result1 == nil && isFloat(result0, fneg(values[0].Float))
+//@ func FunctionMap["-"][4].Function
+//@   ensures sub: result1 == nil && isDur(result0, wrap64(values[0].Duration - values[1].Duration))
+//@ func FunctionMap["-"][5].Function
+//@   ensures neg: result1 == nil && isDur(result0, wrap64(0 - values[0].Duration))
+//@ func FunctionMap["-"][6].Function
+//@   ensures sub: result1 == nil && isTimeNs(result0, values[0].Time.ns + wrap64(0 - values[1].Duration))
+//@ func FunctionMap["*"][0].Function
+//@   ensures mul: result1 == nil && isInt(result0, wrap64(values[0].Int * values[1].Int))
+//@ func FunctionMap["*"][1].Function
+//@   ensures mul: result1 == nil && isFloat(result0, values[0].Float * values[1].Float)
+//@ func FunctionMap["*"][2].Function
+//@   ensures mul: result1 == nil && isDur(result0, wrap64(values[0].Duration * values[1].Int))
+//@ func FunctionMap["*"][3].Function
+//@   ensures mul: result1 == nil && isDur(result0, wrap64(values[1].Duration * values[0].Int))
+//@ func FunctionMap["*"][4].Function
+//@   ensures repeat.err: result1 != nil == (values[1].Int < 0 || (len(values[0].Str) > 0 && values[1].Int > tdiv(9223372036854775807, len(values[0].Str))))
+//@   ensures repeat: result1 == nil ==> isStr(result0, extStr("strings.Repeat", values[0].Str, values[1].Int))
+//@ func FunctionMap["*"][5].Function
+//@   ensures repeat.err: result1 != nil == (values[0].Int < 0 || (len(values[1].Str) > 0 && values[0].Int > tdiv(9223372036854775807, len(values[1].Str))))
+//@   ensures repeat: result1 == nil ==> isStr(result0, extStr("strings.Repeat", values[1].Str, values[0].Int))
+//@ func FunctionMap["/"][0].Function
+//@   ensures div.err: (result1 != nil) == (values[1].Int == 0)
+//@   ensures div: result1 == nil ==> isInt(result0, wrap64(tdiv(values[0].Int, values[1].Int)))
+//@ func FunctionMap["/"][1].Function
+//@   ensures div: result1 == nil && isFloat(result0, fdiv(values[0].Float, values[1].Float))
+//@ func FunctionMap["/"][2].Function
+//@   ensures div.err: (result1 != nil) == (values[1].Int == 0)
+//@   ensures div: result1 == nil ==> isDur(result0, wrap64(tdiv(values[0].Duration, values[1].Int)))
+//@ func FunctionMap["/"][3].Function
+//@   ensures div: result1 == nil && isFloat(result0, fdiv(i2f(values[0].Duration), i2f(values[1].Duration)))
+//@ func FunctionMap["abs"][0].Function
+//@   ensures abs: result1 == nil && isInt(result0, ite(values[0].Int >= 0, values[0].Int, wrap64(0 - values[0].Int)))
+//@ func FunctionMap["abs"][1].Function
+//@   ensures abs: result1 == nil && isFloat(result0, fabs(values[0].Float))
+//@ func FunctionMap["sqrt"][0].Function
+//@   ensures sqrt: result1 == nil && isFloat(result0, fsqrt(values[0].Float))
+//@ func FunctionMap["ceil"][0].Function
+//@   ensures ceil: result1 == nil && isFloat(result0, fceil(values[0].Float))
+//@ func FunctionMap["floor"][0].Function
+//@   ensures floor: result1 == nil && isFloat(result0, ffloor(values[0].Float))
+//@ func FunctionMap["log2"][0].Function
+//@   ensures log: result1 == nil && isFloat(result0, extF64("math.Log2", values[0].Float))
+//@ func FunctionMap["log"][0].Function
+//@   ensures log: result1 == nil && isFloat(result0, extF64("math.Log", values[0].Float))
+//@ func FunctionMap["log10"][0].Function
+//@   ensures log: result1 == nil && isFloat(result0, extF64("math.Log10", values[0].Float))
+//@ func FunctionMap["pow"][0].Function
+//@   ensures pow: result1 == nil && isFloat(result0, extF64("math.Pow", values[0].Float, values[1].Float))
+
+// ---- C13: conversions ----
+//@ func FunctionMap["int"][0].Function
+//@   ensures id: result1 == nil && same(result0, values[0])
+//@ func FunctionMap["int"][1].Function
+//@   ensures bool: result1 == nil && isInt(result0, ite(values[0].Boolean, 1, 0))
+//@ func FunctionMap["int"][3].Function
+//@   ensures parse: result1 == nil && ite(extBool("strconv.ParseInt.ok", values[0].Str), isInt(result0, extInt("strconv.ParseInt.val", values[0].Str)), result0.TypeID == 0)
+//@ func FunctionMap["int"][4].Function
+//@   ensures dur: result1 == nil && isInt(result0, values[0].Duration)
+//@ func FunctionMap["float"][0].Function
+//@   ensures id: result1 == nil && same(result0, values[0])
+//@ func FunctionMap["float"][1].Function
+//@   ensures int: result1 == nil && isFloat(result0, i2f(values[0].Int))
+//@ func FunctionMap["float"][2].Function
+//@   ensures parse: result1 == nil && ite(extBool("strconv.ParseFloat.ok", values[0].Str), isFloat(result0, extF64("strconv.ParseFloat.val", values[0].Str)), result0.TypeID == 0)
+//@ func FunctionMap["time_from_unix"][0].Function
+//@   ensures unix: result1 == nil && isTimeNs(result0, values[0].Int * 1000000000)
+//@ func FunctionMap["time_to_unix"][0].Function
+//@   ensures unix: result1 == nil && result0.TypeID == 1 && result0.Int * 1000000000 <= values[0].Time.ns && values[0].Time.ns < (result0.Int + 1) * 1000000000
+
+// ---- C13: list access and membership ----
+//@ func FunctionMap["[]"][0].Function
+//@   ensures inrange: 0 <= values[1].Int && values[1].Int < len(values[0].List) ==> result1 == nil && same(result0, values[0].List[values[1].Int])
+//@   ensures outofrange: !(0 <= values[1].Int && values[1].Int < len(values[0].List)) ==> result1 == nil && result0.TypeID == 0
+//@ func FunctionMap["in"][0].Function
+//@   loop 1 invariant scanned: 0 <= $k && $k <= len(values[1].List) && forall(j, 0, $k, !(cmp(values[0], values[1].List[j]) == 0 && !(values[0].TypeID == 0 && values[1].List[j].TypeID == 0)))
+//@   ensures member: result1 == nil && isBool(result0, exists(j, 0, len(values[1].List), cmp(values[0], values[1].List[j]) == 0 && !(values[0].TypeID == 0 && values[1].List[j].TypeID == 0)))
+//@ func FunctionMap["in"][1].Function
+//@   loop 1 invariant scanned: 0 <= $k && $k <= len(values[1].Tuple) && forall(j, 0, $k, !(cmp(values[0], values[1].Tuple[j]) == 0 && !(values[0].TypeID == 0 && values[1].Tuple[j].TypeID == 0)))
+//@   ensures member: result1 == nil && isBool(result0, exists(j, 0, len(values[1].Tuple), cmp(values[0], values[1].Tuple[j]) == 0 && !(values[0].TypeID == 0 && values[1].Tuple[j].TypeID == 0)))
+//@ func FunctionMap["not in"][0].Function
+//@   loop 1 invariant scanned: 0 <= $k && $k <= len(values[1].List) && forall(j, 0, $k, !(cmp(values[0], values[1].List[j]) == 0 && !(values[0].TypeID == 0 && values[1].List[j].TypeID == 0)))
+//@   ensures member: result1 == nil && isBool(result0, !exists(j, 0, len(values[1].List), cmp(values[0], values[1].List[j]) == 0 && !(values[0].TypeID == 0 && values[1].List[j].TypeID == 0)))
+//@ func FunctionMap["not in"][1].Function
+//@   loop 1 invariant scanned: 0 <= $k && $k <= len(values[1].Tuple) && forall(j, 0, $k, !(cmp(values[0], values[1].Tuple[j]) == 0 && !(values[0].TypeID == 0 && values[1].Tuple[j].TypeID == 0)))
+//@   ensures member: result1 == nil && isBool(result0, !exists(j, 0, len(values[1].Tuple), cmp(values[0], values[1].Tuple[j]) == 0 && !(values[0].TypeID == 0 && values[1].Tuple[j].TypeID == 0)))
+
+// ---- C12: string functions call the documented library function on the documented arguments ----
+//@ func FunctionMap["upper"][0].Function
+//@   ensures upper: result1 == nil && isStr(result0, extStr("strings.ToUpper", values[0].Str))
+//@ func FunctionMap["lower"][0].Function
+//@   ensures lower: result1 == nil && isStr(result0, extStr("strings.ToLower", values[0].Str))
+//@ func FunctionMap["replace"][0].Function
+//@   ensures replace: result1 == nil && isStr(result0, extStr("strings.Replace", values[0].Str, values[1].Str, values[2].Str, 0 - 1))
+//@ func FunctionMap["position"][0].Function
+//@   ensures found: extInt("strings.Index", values[0].Str, values[1].Str) >= 0 ==> result1 == nil && isInt(result0, extInt("strings.Index", values[0].Str, values[1].Str))
+//@   ensures absent: extInt("strings.Index", values[0].Str, values[1].Str) < 0 ==> result1 == nil && result0.TypeID == 0
+//@ func FunctionMap["len"][0].Function
+//@   ensures len: result1 == nil && isInt(result0, len(values[0].Str))
+//@ func FunctionMap["len"][1].Function
+//@   ensures len: result1 == nil && isInt(result0, len(values[0].List))
+//@ func FunctionMap["len"][2].Function
+//@   ensures len: result1 == nil && isInt(result0, len(values[0].Struct))
+//@ func FunctionMap["len"][3].Function
+//@   ensures len: result1 == nil && isInt(result0, len(values[0].Tuple))
+//@ func FunctionMap["substr"][0].Function
+//@   ensures err: (result1 != nil) == (values[1].Int < 0)
+//@   ensures substr: result1 == nil ==> isStr(result0, ite(values[1].Int >= len(values[0].Str), "", substr(values[0].Str, values[1].Int, len(values[0].Str))))
+//@ func FunctionMap["substr"][1].Function
+//@   ensures err: (result1 != nil) == (values[1].Int < 0 || values[2].Int < 0)
+//@   ensures substr: result1 == nil ==> isStr(result0, ite(values[1].Int >= len(values[0].Str), "", substr(values[0].Str, values[1].Int, ite(values[1].Int + values[2].Int > len(values[0].Str), len(values[0].Str), values[1].Int + values[2].Int))))
